@@ -286,10 +286,10 @@ def run_library(case):
                                       "detail": "%s: driver ended after op %d (%r)\n%s" % (lib["name"], last, ops[last + 1] if last + 1 < len(ops) else None, se[-1500:])})
         serials, counter = {}, 0
         for k, (op, m) in enumerate(zip(ops, meta)):
-            got = outs.get(k)
+            if k not in outs:
+                continue               # the driver never reached this op (crash reported above)
+            got = outs[k]              # None is a legitimate result (void functions, del)
             recs = [t for t in trace.get(k, []) if t[0] == "RECV"]
-            if got is None:
-                continue
             f = lib["functions"][m["f"]] if "f" in m else None
             label = "%s %s(%s%s)" % (lib["name"], op.get("name"), ", ".join(json.dumps(x) for x in op.get("pos", [])),
                                      "".join(", %s=%s" % (a, json.dumps(b)) for a, b in op.get("kw", {}).items()))
